@@ -10,6 +10,6 @@ demo=$(ls /verif/seeded/$id/demo.* | head -1)
 run() { case "$demo" in *.py) /venv/bin/python "$demo" "$1";; *) sh "$demo" "$1";; esac; }
 run $wt > /tmp/cs_$id.mut.log 2>&1; echo "$id demo on changed tree rc=$? (expected non-zero)"
 run /repo > /tmp/cs_$id.pri.log 2>&1; echo "$id demo on pristine tree rc=$? (expected 0)"
-(cd $wt && PYTHONPATH=$wt /venv/bin/python -m pytest -q -p no:cacheprovider --timeout=900 --no-cov tests 2>&1 | tail -1)
+(cd $wt && PYTHONPATH=$wt /venv/bin/python -m pytest -q -p no:cacheprovider --timeout=900 --no-cov -n 6 tests 2>&1 | tail -1)
 git -C /repo worktree remove --force $wt
 rm -f /tmp/cs_$id.mut.log /tmp/cs_$id.pri.log
